@@ -53,8 +53,10 @@ SYM_THEOREMS = ["sym_full_iff", "sym_diag_iff", "isConstant_iff"]
 
 RULE = ("synthetic valid strings (1..6 spins quick / 1..9 thorough; per world line 0 / exactly 1 / many constant ops, idle "
         "spins, multi-edges, constant two-spin ops, three-spin ops, single-site symmetric and field ops, random rotation in "
-        "imaginary time so ops wrap the boundary) installed with FastOps::new_from_ops, plus equilibrium strings from real "
-        "Ising runs (h = 0 and h != 0) and generic runs; each is flipped by the real flip_each_cluster(_ising_symmetry)_rng / "
+        "imaginary time so ops wrap the boundary) installed with FastOps::new_from_ops, for a third of them also after 1..3 "
+        "multi-variable ops (preferably first/last on a world line) were replaced in place through mutate_ops by the same op on "
+        "the reversed variable list, plus equilibrium strings from real Ising runs (h = 0 and h != 0; 2/5 of the graphs with "
+        "reversed duplicate edges of opposite sign, warmed up with RVB sweeps) and generic runs; each is flipped by the real flip_each_cluster(_ising_symmetry)_rng / "
         "single_cluster_step / Qmc::cluster_update under random, all-accept, mixed, all-reject scripts (kind move) and under "
         "single-accept scripts, one per cluster, threshold probed at 2^63-1 / 2^63 / 0 (kind single). Every move run is also "
         "compared with the exact model clusterUpdate (kind exact: output state, output string incl. tags, returned count and "
